@@ -4,14 +4,18 @@ import re
 from . import render, lexer
 
 CMT = {1: "! plain comment", 2: "! it's", 3: "! say \"hi\"", 4: "! a ! b", 5: "! ends with &",
-       6: "!$omp parallel do", 7: "!dir$ ivdep", 8: "!$ y = 2"}
+       6: "!$omp parallel do", 7: "!dir$ ivdep", 8: "!$ y = 2",
+       # an ordinary comment that mentions directive spellings in its text
+       9: "! see !dir$ ivdep, c$omp and *$ below"}
 CPP = {1: ["#ifdef FOO"], 2: ["#ifndef FOO"], 3: ["#if defined(A) && B > 2"], 4: ["#elif X"], 5: ["#else"], 6: ["#endif"],
        7: ['#include "file.h"'], 8: ["#define FOO(a) a + 1"], 9: ["#undef FOO"], 10: ['#line 10 "f.f90"'],
        11: ["#error bad thing"], 12: ["#define BAR \\", "   1 + 2"], 13: ["#if defined(A) && \\", "    defined(B)"],
        14: ["#warning careful"], 15: ["#"], 16: ['# 12 "g.f90"'], 17: ["#  endif"], 18: ["#include <sys.h>"],
        # text after the directive, blanks after the '#'
        19: ["#endif /* FOO */"], 20: ["#else // not FOO"], 21: ["#  ifdef FOO"], 22: ["# define GUARD 1"], 23: ["#endif FOO"],
-       24: ['#   include "decl.h"'], 25: ["#define EMPTY"], 26: ["#if 0"], 27: ["#elif defined(X) /* c */"]}
+       24: ['#   include "decl.h"'], 25: ["#define EMPTY"], 26: ["#if 0"], 27: ["#elif defined(X) /* c */"],
+       # a ';' inside the payload (quoted)
+       28: ['#define SEP ";"'], 29: ['#error "x; y"']}
 AFTER_BREAK = "! after the break"
 GARB = {1: ["@@", "x", "y"], 2: ["1", "=", "=", "2"], 3: ["then", "end", "do"], 4: ["@@", "x", "y  ! a trailing comment"], 5: ["then", "end", "do ! it's"],
         # statements cut short: an assignment without its right-hand side, a call without a name
@@ -197,7 +201,10 @@ def layout(out, ed):
                 phys.append((i, ""))
             if var in (4, 5):
                 phys.append((i, ind + "  ! between \"lines\" &"))
-            phys.append((i, ind + ("    & " if var in (1, 5) else "      ") + parts[1]))
+            if var == 6:
+                phys.append((i, "&" + parts[1]))         # the continuation line starts with its & in column 1
+            else:
+                phys.append((i, ind + ("    & " if var in (1, 5) else "      ") + parts[1]))
         else:
             line = ind + render.stmt_line(s, indent=False)
             if i in trail:
@@ -303,7 +310,7 @@ def inc_name(k, style=0, base="inc"):
     return n, "include '%s'" % n, "INCLUDE '%s'" % n
 
 
-def split_includes(phys_by_stmt, stmts, incs, base="inc", style=0):
+def split_includes(phys_by_stmt, stmts, incs, base="inc", style=0, lead="  "):
     """Move statement ranges into include files.  phys_by_stmt: list of physical lines per statement (1-based idx).
     Returns (main_lines, files{name: text})."""
     files = {}
@@ -321,8 +328,8 @@ def split_includes(phys_by_stmt, stmts, incs, base="inc", style=0):
             r = next((ab for ab in ranges if ab[0] == i), None)
             if r is not None:
                 inner = [ab for ab in ranges if ab != r and r[0] <= ab[0] and ab[1] <= r[1]]
-                files[names[r]] = "\n".join("  " + l for l in emit(r[0], r[1], inner, indent)) + "\n"
-                lines.append("  " + lines_of[r])
+                files[names[r]] = "\n".join((("  " + l) if lead == "  " else l) for l in emit(r[0], r[1], inner, indent)) + "\n"
+                lines.append(lead + lines_of[r])
                 i = r[1] + 1
             else:
                 lines.extend(phys_by_stmt[i])
